@@ -307,6 +307,78 @@ fn deep_doc(k: usize, truncated: bool) -> Vec<u8> {
     d
 }
 
+fn mp_str(out: &mut Vec<u8>, s: &[u8]) {
+    if s.len() < 32 {
+        out.push(0xa0 + s.len() as u8);
+    } else {
+        out.push(0xd9);
+        out.push(s.len() as u8);
+    }
+    out.extend_from_slice(s);
+}
+
+/// `{"codes": C, "tags": T}` where C and T are arrays of `n` strings (or maps of `n` string entries)
+fn sibling_doc(n: usize, map: bool) -> Vec<u8> {
+    let mut d = vec![0x82u8];
+    for name in ["codes", "tags"] {
+        mp_str(&mut d, name.as_bytes());
+        d.push(if map { 0xde } else { 0xdc });
+        d.push((n >> 8) as u8);
+        d.push(n as u8);
+        for i in 0..n {
+            if map {
+                mp_str(&mut d, format!("k{}", i).as_bytes());
+            }
+            mp_str(&mut d, format!("{}-{}", &name[..3], i).as_bytes());
+        }
+    }
+    d
+}
+
+fn sibling_history(rec: &mut Rec, n: usize, map: bool) {
+    let handle = |a: &str| -> Option<String> { a.split_whitespace().nth(1).map(|x| x.to_string()) };
+    rec.op("root");
+    let c = match handle(&rec.op(&format!("prop h0 {}", hex0(b"codes")))) {
+        Some(c) => c,
+        None => return,
+    };
+    for i in 0..n {
+        rec.op(&format!("idx {} {}", c, i));
+    }
+    let t = match handle(&rec.op(&format!("prop h0 {}", hex0(b"tags")))) {
+        Some(t) => t,
+        None => return,
+    };
+    let mut kept: Vec<(usize, String)> = Vec::new();
+    let mut kept_keys: Vec<(usize, String)> = Vec::new();
+    for i in 0..n {
+        if map && i % 2 == 0 {
+            if let Some(h) = handle(&rec.op(&format!("key {} {}", t, i))) {
+                if i < 3 || i % 128 == 0 {
+                    kept_keys.push((i, h));
+                }
+            }
+        }
+        if let Some(h) = handle(&rec.op(&format!("idx {} {}", t, i))) {
+            if i < 3 || i % 128 == 0 {
+                kept.push((i, h));
+            }
+        }
+    }
+    // the handles taken on the way still denote the same entries
+    for (_, h) in kept.iter().chain(kept_keys.iter()) {
+        rec.op(&format!("str {}", h));
+        rec.op(&format!("len {}", h));
+    }
+    for i in [0usize, 1, 255, 256, n - 1] {
+        rec.op(&format!("idx {} {}", t, i));
+        if map {
+            rec.op(&format!("key {} {}", t, i));
+            rec.op(&format!("prop {} {}", t, hex0(format!("k{}", i).as_bytes())));
+        }
+    }
+}
+
 fn gen_c01(rec: &mut Rec, rng: &mut Rng, cases: u64, malformed: bool) {
     // deeply nested values that have to be stepped over (valid for C01, cut off for C08)
     for &k in &[1usize, 64, 127, 128, 129, 300] {
@@ -318,6 +390,25 @@ fn gen_c01(rec: &mut Rec, rng: &mut Rng, cases: u64, malformed: bool) {
         rec.op("idx h0 0");
         rec.op("idx h0 1");
         rec.op("len h0");
+    }
+    // two sibling containers with more entries than a width boundary: the first is read completely,
+    // then an early handle of the second is kept while every later entry is read, and used again
+    {
+        let sizes: &[usize] = if cases > 3000 { &[257, 300, 1025, 1100, 2049, 4100] } else { &[257, 300, 1025, 1100] };
+        for &n in sizes {
+            for map in [false, true] {
+                rec.case(if malformed { "c08" } else { "c01" });
+                rec.bump("doc:siblings");
+                let mut d = sibling_doc(n, map);
+                if malformed {
+                    // cut off inside the last few entries of the second container
+                    let cut = d.len() - 1 - rng.below(40) as usize;
+                    d.truncate(cut);
+                }
+                rec.op(&format!("init {}", hex0(&d)));
+                sibling_history(rec, n, map);
+            }
+        }
     }
     for i in 0..cases {
         rec.case(if malformed { "c08" } else { "c01" });
@@ -849,6 +940,12 @@ fn gen_writes(rec: &mut Rec, rng: &mut Rng, cases: u64, keep_going: bool) {
             rec.op("out?");
             rec.op("init c0");
         }
+        if ci % 5 == 2 {
+            // the api crate's closure-taking container writers and its own status mapping
+            rec.op(&format!("awseq {}", (ci / 5) % 7));
+            rec.op("out?");
+            rec.op("init c0");
+        }
         let mut interned: Vec<usize> = Vec::new();
         if rng.chance(1, 3) {
             for _ in 0..rng.range(1, 3) {
@@ -1079,7 +1176,8 @@ fn gen_logs(rec: &mut Rec, rng: &mut Rng, cases: u64, thorough: bool) {
                 9 => rng.range(400, 600),
                 _ => rng.range(0, 300),
             };
-            let seed = rng.below(1000);
+            // a quarter of the messages are multi-byte text (seed >= 1000)
+            let seed = if rng.chance(1, 4) { 1000 + rng.below(3) } else { rng.below(1000) };
             if rng.chance(1, 3) {
                 rec.op(&format!("logreq {}", len));
                 rec.op(&format!("logcopy {} {}", len, seed));
@@ -1143,7 +1241,7 @@ fn gen_boxes(rec: &mut Rec, rng: &mut Rng, scale: u64) {
     rec.op(&format!("unbox {}", bits));
     // decision-relevant bits exhaustively: sign x 13 prefix bits x 4 tag bits, a few payloads
     let shift = if w == 64 { 64 } else { 0 };
-    let payloads: &[u128] = &[0, 1, (1u128 << 46) - 1, 0x2aaa_aaaa_aaaa, 5];
+    let payloads: &[u128] = &[0, 1, (1u128 << 46) - 1, 0x2aaa_aaaa_aaaa, 5, 1u128 << 32, 16383u128 << 32, 1u128 << 45];
     let stride = if scale > 1 { 1 } else { 5 };
     let mut i = 0u64;
     for top in 0u128..(1 << 18) {
